@@ -83,13 +83,13 @@ export -f run_case
 echo "base -" >>"$W/list"
 case " $what " in *" harmless "*)
   for h in 1 2 3 4 5 6 7 8; do for k in 1 2 3; do echo "H$h-h$k $HERE/seeded/harmless/H$h/h$k.diff" >>"$W/list"; done; done
-  for f in "$HERE"/handmade/harmless-*; do echo "hand-$(basename "$f") $f" >>"$W/list"; done ;;
+  for f in "$HERE"/tools/tie_handmade/harmless-*; do echo "hand-$(basename "$f") $f" >>"$W/list"; done ;;
 esac
 case " $what " in *" seeded "*)
   for d in "$HERE"/seeded/C*-*; do echo "$(basename "$d") $d/patch.diff" >>"$W/list"; done ;;
 esac
 case " $what " in *" handmade "*)
-  for f in "$HERE"/handmade/*; do
+  for f in "$HERE"/tools/tie_handmade/*; do
     b="$(basename "$f")"
     case "$b" in _lib.py|__pycache__|harmless-*) continue ;; esac
     echo "hand-$b $f" >>"$W/list"
